@@ -269,10 +269,11 @@ func checkTree(t *cfgx.Node, msgs []*cfgx.Msg, cls func(string), evals *int) *mi
 		if via == 1 {
 			reqmod, resmod = res.RequestModifier(), res.ResponseModifier()
 		}
+		counts := map[string]int{} // state of counting probes: one installed instance per entry point
 		for i, msg := range msgs {
 			st := cfgx.NewState(msg)
 			// request
-			ref := &cfgx.Ref{St: st}
+			ref := &cfgx.Ref{St: st, Counts: counts}
 			want := ref.Run(t, cfgx.Req)
 			req := msg.Request()
 			var gerr error
@@ -287,7 +288,7 @@ func checkTree(t *cfgx.Node, msgs []*cfgx.Msg, cls func(string), evals *int) *mi
 				cls(base + "|request|err=" + errPattern(ref, want) + "|cond=" + condPattern(ref.Conds))
 			}
 			// response (same exchange: the request as the request modifiers left it)
-			ref = &cfgx.Ref{St: st}
+			ref = &cfgx.Ref{St: st, Counts: counts}
 			want = ref.Run(t, cfgx.Res)
 			rs := msg.Response(req)
 			gerr = nil
@@ -760,10 +761,50 @@ func runInvalid(r *vh.Run) {
 // reconfiguration histories (sequential)
 
 type step struct {
-	Op     string     `json:"op"` // "post" | "post-invalid" | "traffic"
+	Op     string     `json:"op"` // "post" | "post-invalid" | "traffic" | "set"
 	Tree   *cfgx.Node `json:"tree,omitempty"`
-	Body   string     `json:"body,omitempty"`
+	Body   string     `json:"body,omitempty"` // post: the text sent (the tree's JSON, possibly re-spaced)
+	Same   bool       `json:"same,omitempty"` // post: the configuration that is already active, up to whitespace
 	Defect string     `json:"defect,omitempty"`
+	Side   string     `json:"side,omitempty"` // set: "request" | "response" (programmatic SetRequestModifier / SetResponseModifier)
+	ID     string     `json:"id,omitempty"`   // set: id of the probe installed; "" = nil (noop)
+}
+
+// active is the model of what a martianhttp.Modifier has in force: per side
+// either the tree of the last accepted POST, or a modifier installed with the
+// programmatic setters (a probe, or nothing), plus the state of the tree's
+// counting probes (fresh after every accepted POST).
+type active struct {
+	tree           *cfgx.Node
+	reqSet, resSet *string // nil = the tree is in force on that side; else probe id ("" = noop)
+	counts         map[string]int
+}
+
+func (a *active) expect(k cfgx.Kind, st *cfgx.State) []string {
+	set := a.reqSet
+	if k == cfgx.Res {
+		set = a.resSet
+	}
+	if set != nil {
+		if *set != "" {
+			st.H(k).Add(cfgx.TraceHeader, *set)
+		}
+		return nil
+	}
+	if a.tree == nil {
+		return nil
+	}
+	ref := &cfgx.Ref{St: st, Counts: a.counts}
+	return ref.Run(a.tree, k)
+}
+
+// setterProbe builds a probe modifier for the programmatic setters.
+func setterProbe(id string) *parse.Result {
+	res, err := parse.FromJSON([]byte(`{"verif.Probe":{"id":"` + id + `"}}`))
+	if err != nil {
+		panic(err)
+	}
+	return res
 }
 
 type reconfCase struct {
@@ -777,23 +818,61 @@ type reconfCase struct {
 func genReconf(r *vh.Run, stream string, idx int) reconfCase {
 	rng := r.Rng(stream, idx)
 	c := reconfCase{Kind: "reconf", Stream: stream, Idx: idx}
-	nsteps := 5 + rng.Intn(8)
 	var all []*cfgx.Node
 	ncfg := 0
+	newTree := func() *cfgx.Node {
+		o := cfgx.GenOpts{MaxDepth: 1 + rng.Intn(4), MaxWidth: 3, IDPrefix: string(rune('A'+ncfg%26)) + ".", Counters: true}
+		ncfg++
+		t := cfgx.GenTree(rng, o)
+		// every third configuration restricts its top-level scope: the other half must become a no-op
+		if rng.Intn(3) == 0 && (cfgx.IsGroup(t.Kind) || cfgx.IsFilter(t.Kind)) {
+			t.Scope = []cfgx.Scope{cfgx.ScReq, cfgx.ScRes, cfgx.ScNone}[rng.Intn(3)]
+		}
+		all = append(all, t)
+		return t
+	}
+	nset := 0
+	setStep := func() step {
+		nset++
+		st := step{Op: "set", Side: []string{"request", "response"}[rng.Intn(2)]}
+		if rng.Intn(3) != 0 {
+			st.ID = "S." + strconv.Itoa(nset)
+		}
+		return st
+	}
+	var cur *cfgx.Node
+	post := func(t *cfgx.Node, same bool) {
+		st := step{Op: "post", Tree: t, Same: same}
+		if same || rng.Intn(3) == 0 {
+			st.Body = cfgx.Respace(rng, t.JSON())
+		}
+		c.Steps = append(c.Steps, st)
+		cur = t
+	}
+	if idx%4 == 0 {
+		// fixed share of every run: the configuration that is already active is POSTed again
+		// (same text up to whitespace) after traffic advanced the tree's state and / or after
+		// the programmatic setters replaced a side
+		post(newTree(), false)
+		c.Steps = append(c.Steps, step{Op: "traffic"})
+		for k := rng.Intn(3); k > 0; k-- {
+			c.Steps = append(c.Steps, setStep())
+		}
+		c.Steps = append(c.Steps, step{Op: "traffic"})
+		post(cur, true)
+		c.Steps = append(c.Steps, step{Op: "traffic"})
+	}
+	nsteps := 5 + rng.Intn(8)
 	for i := 0; i < nsteps; i++ {
-		x := rng.Intn(10)
+		x := rng.Intn(20)
 		switch {
-		case i == 0 || x < 3:
-			o := cfgx.GenOpts{MaxDepth: 1 + rng.Intn(4), MaxWidth: 3, IDPrefix: string(rune('A'+ncfg%26)) + "."}
-			ncfg++
-			t := cfgx.GenTree(rng, o)
-			// every second configuration restricts its top-level scope: the other half must become a no-op
-			if rng.Intn(3) == 0 && (cfgx.IsGroup(t.Kind) || cfgx.IsFilter(t.Kind)) {
-				t.Scope = []cfgx.Scope{cfgx.ScReq, cfgx.ScRes, cfgx.ScNone}[rng.Intn(3)]
-			}
-			all = append(all, t)
-			c.Steps = append(c.Steps, step{Op: "post", Tree: t})
-		case x < 6:
+		case (i == 0 && cur == nil) || x < 5:
+			post(newTree(), false)
+		case x < 7 && cur != nil:
+			post(cur, true)
+		case x < 9:
+			c.Steps = append(c.Steps, setStep())
+		case x < 13:
 			ic := genInvalid(r, stream+"-inv", idx*100+i)
 			c.Steps = append(c.Steps, step{Op: "post-invalid", Body: ic.Body, Defect: ic.Defect, Tree: ic.Tree})
 		default:
@@ -816,21 +895,18 @@ func genReconf(r *vh.Run, stream string, idx int) reconfCase {
 	return c
 }
 
-// trafficAgainst compares traffic through m with the reference for tree t
-// (nil = nothing configured yet: no effect expected... not judged).
-func trafficAgainst(m *martianhttp.Modifier, t *cfgx.Node, msgs []*cfgx.Msg, evals *int) *mismatch {
+// trafficAgainst compares traffic through m with what the model says is in force.
+func trafficAgainst(m *martianhttp.Modifier, act *active, msgs []*cfgx.Msg, evals *int) *mismatch {
 	for i, msg := range msgs {
 		st := cfgx.NewState(msg)
-		ref := &cfgx.Ref{St: st}
-		want := ref.Run(t, cfgx.Req)
+		want := act.expect(cfgx.Req, st)
 		req := msg.Request()
 		gerr := m.ModifyRequest(req)
 		*evals++
 		if c, w := compare(cfgx.Req, st, want, req.Header, 0, gerr); c != "" {
 			return &mismatch{Clause: c, Kind: "request", Msg: i, Via: "martianhttp", What: w}
 		}
-		ref = &cfgx.Ref{St: st}
-		want = ref.Run(t, cfgx.Res)
+		want = act.expect(cfgx.Res, st)
 		rs := msg.Response(req)
 		gerr = m.ModifyResponse(rs)
 		*evals++
@@ -843,7 +919,7 @@ func trafficAgainst(m *martianhttp.Modifier, t *cfgx.Node, msgs []*cfgx.Msg, eva
 
 func judgeReconf(r *vh.Run, c reconfCase) {
 	m := martianhttp.NewModifier()
-	var cur *cfgx.Node
+	act := &active{}
 	last := "start"
 	var pattern []string
 	n := 0
@@ -852,12 +928,23 @@ func judgeReconf(r *vh.Run, c reconfCase) {
 		switch s.Op {
 		case "post":
 			n++
-			if code := postConfig(m, s.Tree.JSON()); code != 200 {
-				r.ViolationCase(c, "C12:accept:config:martianhttp", fmt.Sprintf("step %d: valid configuration answered %d", i, code), map[string]interface{}{"config": s.Tree.JSON()})
+			body := s.Body
+			if body == "" {
+				body = s.Tree.JSON()
+			}
+			if code := postConfig(m, body); code != 200 {
+				r.ViolationCase(c, "C12:accept:config:martianhttp", fmt.Sprintf("step %d: valid configuration answered %d", i, code), map[string]interface{}{"config": body})
 				return
 			}
-			cur, last = s.Tree, "accepted"
-			pattern = append(pattern, "A")
+			// an accepted configuration replaces what was in force completely: both sides, fresh state
+			act = &active{tree: s.Tree, counts: map[string]int{}}
+			last = "accepted"
+			if s.Same {
+				last = "accepted-same"
+				pattern = append(pattern, "S")
+			} else {
+				pattern = append(pattern, "A")
+			}
 		case "post-invalid":
 			n++
 			if code := postConfig(m, s.Body); code != 400 {
@@ -866,25 +953,52 @@ func judgeReconf(r *vh.Run, c reconfCase) {
 			}
 			last = "rejected"
 			pattern = append(pattern, "R")
+		case "set":
+			n++
+			id := s.ID
+			if s.Side == "request" {
+				if id == "" {
+					m.SetRequestModifier(nil)
+				} else {
+					m.SetRequestModifier(setterProbe(id).RequestModifier())
+				}
+				act.reqSet = &id
+			} else {
+				if id == "" {
+					m.SetResponseModifier(nil)
+				} else {
+					m.SetResponseModifier(setterProbe(id).ResponseModifier())
+				}
+				act.resSet = &id
+			}
+			last = "setter"
+			pattern = append(pattern, "P")
 		case "traffic":
-			if cur == nil {
+			if act.tree == nil && act.reqSet == nil && act.resSet == nil {
 				continue
 			}
-			if mm := trafficAgainst(m, cur, c.Msgs, &n); mm != nil {
+			if mm := trafficAgainst(m, act, c.Msgs, &n); mm != nil {
 				// a configuration that diverges even when freshly installed on its own is a
 				// tree-semantics divergence, not a reconfiguration one: report it as such
 				k := 0
-				if checkTree(cur, c.Msgs, nil, &k) != nil {
-					judgeTree(r, treeCase{Kind: "tree", Stream: c.Stream, Idx: c.Idx, Tree: cur, Msgs: c.Msgs})
+				if act.tree != nil && checkTree(act.tree, c.Msgs, nil, &k) != nil {
+					judgeTree(r, treeCase{Kind: "tree", Stream: c.Stream, Idx: c.Idx, Tree: act.tree, Msgs: c.Msgs})
 					return
 				}
 				sig := "C12:reconfig:after-" + last + ":" + mm.Kind
-				r.ViolationCase(c, sig, fmt.Sprintf("step %d: after a %s POST the traffic does not show exactly the active configuration's effect: %s", i, last, mm.String()),
-					map[string]interface{}{"active_config": cur.Describe(), "active_json": cur.JSON()})
+				d := map[string]interface{}{}
+				if act.tree != nil {
+					d["active_config"], d["active_json"] = act.tree.Describe(), act.tree.JSON()
+				}
+				r.ViolationCase(c, sig, fmt.Sprintf("step %d: after a %s step the traffic does not show exactly what is in force: %s", i, last, mm.String()), d)
 				return
 			}
 			pattern = append(pattern, "t")
-			r.Class("reconf|traffic-after-" + last + "|top-scope=" + cur.Scope.Abbrev())
+			sc := "-"
+			if act.tree != nil {
+				sc = act.tree.Scope.Abbrev()
+			}
+			r.Class("reconf|traffic-after-" + last + "|top-scope=" + sc)
 		}
 	}
 	p := strings.Join(pattern, "")
